@@ -275,24 +275,35 @@ SPEC_LOG = SPEC_ARC.split("/// `std::thread::sleep(..)`")[0] + r"""
 pub enum RetryResult<I> { Ok { reported_input: (), output: () }, Transient { input: I, error: () }, Fatal { input: I, error: () } }
 pub struct Setter { pub value: Ghost<u64>, pub id: Ghost<int> }
 /// the log topic (MMapMeta): abstractly the published history
-pub struct LogQueue { pub log: Ghost<Seq<u64>> }
+pub struct LogQueue { pub log: Ghost<Seq<u64>>,
+    /// ghost: has THIS call's event been appended (made visible) yet
+    pub appended: Ghost<bool> }
 impl LogQueue {
     /// ASSUMED contract of MMapMeta::publish_movable / publish (decided in units mmap_meta / mmap_log_a, K): accepted => exactly one entry appended
     #[verifier::external_body]
     pub fn publish_movable(&mut self, item: u64) -> (r: (Option<NonZeroU32>, Option<u64>))
-        ensures r.0 is Some ==> r.1 is None && final(self).log@ == old(self).log@.push(item),
-                r.0 is None ==> r.1 == Some(item) && final(self).log == old(self).log,
+        ensures r.0 is Some ==> r.1 is None && final(self).log@ == old(self).log@.push(item) && final(self).appended@,
+                r.0 is None ==> r.1 == Some(item) && final(self).log == old(self).log && final(self).appended == old(self).appended,
     { unimplemented!() }
     #[verifier::external_body]
     pub fn publish(&mut self, setter: Setter) -> (r: (Option<NonZeroU32>, Option<Setter>))
-        ensures r.0 is Some ==> r.1 is None && final(self).log@ == old(self).log@.push(setter.value@),
-                r.0 is None ==> r.1 == Some(setter) && final(self).log == old(self).log,
+        ensures r.0 is Some ==> r.1 is None && final(self).log@ == old(self).log@.push(setter.value@) && final(self).appended@,
+                r.0 is None ==> r.1 == Some(setter) && final(self).log == old(self).log && final(self).appended == old(self).appended,
     { unimplemented!() }
 }
 impl<const MAX_STREAMS: usize> StreamsManagerBase<MAX_STREAMS> {
     pub fn running_streams_count(&self) -> (r: u32) ensures r == self.used_streams_count@ { self.used_streams_count.load(Relaxed) }
 }
 pub struct MmapLog<const MAX_STREAMS: usize> { pub streams_manager: StreamsManagerBase<MAX_STREAMS>, pub log_queue: LogQueue }
+impl<const MAX_STREAMS: usize> MmapLog<MAX_STREAMS> {
+    /// `self.streams_manager.running_streams_count()` as the bound of the wake-up loop. MECHANISM obligation (C09 / C04): the set of listeners to wake is
+    /// sampled AFTER the event is visible -- a listener that subscribes between an earlier sample and the publication owns the event (it is 'new' for it)
+    /// but would not be woken for it
+    pub fn live_count_for_wakeup(&self) -> (r: u32)
+        requires self.log_queue.appended@,
+        ensures r == self.streams_manager.used_streams_count@,
+    { self.streams_manager.running_streams_count() }
+}
 """
 
 
@@ -300,6 +311,7 @@ def unit_log():
     impl = r"ChannelProducer\s*<\s*'a\s*,\s*ItemType\s*,\s*&'static\s+ItemType\s*>\s*for\s+MmapLog\s*<[^{]*(?=\{)"
     US, CNT = "old(self).streams_manager.used_streams", "old(self).streams_manager.used_streams_count@"
     rules = [Rule("R3-retry-path", r"\bkeen_retry::RetryResult::", "RetryResult::", min=1),
+             Rule("R6-live-count", r"self\.streams_manager\.running_streams_count\(\)", "self.live_count_for_wakeup()", count=1, note="the wake-up loop's bound -> shim that requires the event to be visible already"),
              Rule("R6-alias", r"let used_streams = self\.streams_manager\.used_streams\(\);", "", count=1, note="&[u32; M] alias of the live list inlined"),
              Rule("R6-get_unchecked", r"\*unsafe \{ used_streams\.get_unchecked\(([^()]*)\) \}", r"self.streams_manager.used_streams[\1]", count=1, note="unchecked read -> checked index (bound obligation)"),
              Rule("R12-for-label", r"\bfor\s+(\w+)\s+in\s+(?!it_)", r"for \1 in it_\1: ", count=1),
@@ -314,11 +326,11 @@ def unit_log():
             "!(r is Fatal), final(self).streams_manager.used_streams == " + US)
     fns = [FnSpec("src/multi/channels/reference/mmap_log.rs", "send", impl=impl, props=["C03", "C04", "C09"],
                   sig="pub fn send(&mut self, item: u64) -> (r: RetryResult<u64>)", sig_anchor=r"fn send\(&self, item: ItemType\)",
-                  rules=rules, requires="old(self).streams_manager.inv_sm()", ensures=post.replace("PAYLOAD", "item").replace("INPUT", "item"),
+                  rules=rules, requires="old(self).streams_manager.inv_sm(), !old(self).log_queue.appended@", ensures=post.replace("PAYLOAD", "item").replace("INPUT", "item"),
                   loops={0: inv.replace("PAYLOAD", "item")}),
            FnSpec("src/multi/channels/reference/mmap_log.rs", "send_with", impl=impl, props=["C03", "C04", "C09"],
                   sig="pub fn send_with(&mut self, setter: Setter) -> (r: RetryResult<Setter>)", sig_anchor=r"fn send_with<F: FnOnce\(&mut ItemType\)>\(&self, setter: F\)",
-                  rules=rules, requires="old(self).streams_manager.inv_sm()", ensures=post.replace("PAYLOAD", "setter.value@").replace("INPUT", "setter"),
+                  rules=rules, requires="old(self).streams_manager.inv_sm(), !old(self).log_queue.appended@", ensures=post.replace("PAYLOAD", "setter.value@").replace("INPUT", "setter"),
                   loops={0: inv.replace("PAYLOAD", "setter.value@")})]
     for f in fns:
         f.container = "impl<const MAX_STREAMS: usize> MmapLog<MAX_STREAMS>"
